@@ -20,7 +20,7 @@ import (
 func init() { register("C09", runC09) }
 
 func runC09(r *kit.Run) {
-	n := int64(r.Scale(360, 24000))
+	n := int64(r.Scale(360, 100000))
 	for i := int64(0); i < n && !r.Stopped(); i++ {
 		if !r.Mine(i) {
 			continue
